@@ -10,6 +10,7 @@ CONSTANTS
   B = 1  TXMax = 2
   Inline = TRUE  BatchTX = TRUE  Drops = FALSE
   ScrubTxLen = TRUE  ResetRawSA = FALSE  BothOnHandoff = FALSE
+  ClearHdr = TRUE  TruncRelease = TRUE
   ResetSlot = TRUE  Opts <- ONone
 SPECIFICATION Spec
 SYMMETRY SymClients
